@@ -122,6 +122,103 @@ theorem layerOf_perm {l₁ l₂ : List IView} (h : l₁.Perm l₂)
     exact insertView_comm z x y (eq_or_ne_of_nodup_map View.name nd hx hy)
   · rfl
 
+/-! ## the collector as a sorted list (what `BTreeMap` iteration shows) -/
+
+/-- the order of `Name` (byte-wise comparison of the text) as a Boolean test; the theorems need only that
+    it is a strict total order -/
+structure StrictTotal (lt : Str → Str → Bool) : Prop where
+  irrefl : ∀ a, lt a a = false
+  trans : ∀ a b c, lt a b = true → lt b c = true → lt a c = true
+  tri : ∀ a b, a = b ∨ lt a b = true ∨ lt b a = true
+
+theorem StrictTotal.asymm {lt : Str → Str → Bool} (h : StrictTotal lt) {a b : Str} (hab : lt a b = true) :
+    lt b a = false := by
+  cases hba : lt b a with
+  | false => rfl
+  | true =>
+    have := h.trans a b a hab hba
+    rw [h.irrefl] at this
+    exact absurd this (by decide)
+
+theorem StrictTotal.ne {lt : Str → Str → Bool} (h : StrictTotal lt) {a b : Str} (hab : lt a b = true) : a ≠ b := by
+  intro e; subst e; rw [h.irrefl] at hab; exact absurd hab (by decide)
+
+theorem lexLt_strictTotal : StrictTotal lexLt where
+  irrefl a := by simp [lexLt, List.lt_irrefl]
+  trans a b c h1 h2 := by
+    simp only [lexLt, decide_eq_true_eq] at *
+    exact List.lt_trans h1 h2
+  tri a b := by
+    simp only [lexLt, decide_eq_true_eq]
+    by_cases h1 : a < b
+    · exact Or.inr (Or.inl h1)
+    · by_cases h2 : b < a
+      · exact Or.inr (Or.inr h2)
+      · exact Or.inl (List.le_antisymm (List.not_lt.mp h2) (List.not_lt.mp h1))
+
+set_option linter.unusedSimpArgs false in
+theorem insertSorted_comm {lt : Str → Str → Bool} (h : StrictTotal lt) (a b : View) (hne : a.name ≠ b.name)
+    (m : List View) :
+    insertSorted lt a (insertSorted lt b m) = insertSorted lt b (insertSorted lt a m) := by
+  have hne' : b.name ≠ a.name := Ne.symm hne
+  induction m with
+  | nil =>
+    rcases h.tri a.name b.name with e | l | g
+    · exact absurd e hne
+    · simp [insertSorted, l, h.asymm l, hne, hne']
+    · simp [insertSorted, g, h.asymm g, hne, hne']
+  | cons w r ih =>
+    rcases h.tri a.name b.name with e | lab | lba
+    · exact absurd e hne
+    · -- a < b
+      have nba := h.asymm lab
+      rcases h.tri a.name w.name with eaw | law | lwa
+      · -- a = w, hence w < b
+        have lwb : lt w.name b.name = true := eaw ▸ lab
+        have nbw := h.asymm lwb
+        have nwb : b.name ≠ w.name := fun e => hne (eaw.trans e.symm)
+        simp [insertSorted, eaw, h.irrefl, lwb, nbw, nwb, Ne.symm nwb]
+      · -- a < w
+        rcases h.tri b.name w.name with ebw | lbw | lwb
+        · simp [insertSorted, law, ebw, h.irrefl, h.asymm law, lab, nba, hne, hne', h.ne law]
+          simp [← ebw, lab, nba, hne, hne', insertSorted]
+        · simp [insertSorted, law, lbw, lab, nba, hne, hne', h.asymm law, h.asymm lbw, h.ne law, h.ne lbw]
+        · simp [insertSorted, law, lwb, lab, nba, hne, hne', h.asymm law, h.asymm lwb, h.ne law,
+            Ne.symm (h.ne lwb)]
+      · -- w < a < b
+        have lwb := h.trans _ _ _ lwa lab
+        simp [insertSorted, lwa, lwb, h.asymm lwa, h.asymm lwb, Ne.symm (h.ne lwa), Ne.symm (h.ne lwb), ih]
+    · -- b < a
+      have nab := h.asymm lba
+      rcases h.tri b.name w.name with ebw | lbw | lwb
+      · have lwa : lt w.name a.name = true := ebw ▸ lba
+        have naw := h.asymm lwa
+        have nwa : a.name ≠ w.name := fun e => hne' (ebw.trans e.symm)
+        simp [insertSorted, ebw, h.irrefl, lwa, naw, nwa, Ne.symm nwa]
+      · rcases h.tri a.name w.name with eaw | law | lwa
+        · simp [insertSorted, lbw, eaw, h.irrefl, h.asymm lbw, lba, nab, hne, hne', h.ne lbw]
+          simp [← eaw, lba, nab, hne, hne', insertSorted]
+        · simp [insertSorted, law, lbw, lba, nab, hne, hne', h.asymm law, h.asymm lbw, h.ne law, h.ne lbw]
+        · simp [insertSorted, lbw, lwa, lba, nab, hne, hne', h.asymm lbw, h.asymm lwa, h.ne lbw,
+            Ne.symm (h.ne lwa)]
+      · have lwa := h.trans _ _ _ lwb lba
+        simp [insertSorted, lwa, lwb, h.asymm lwa, h.asymm lwb, Ne.symm (h.ne lwa), Ne.symm (h.ne lwb), ih]
+
+
+/-- the sorted collector too depends only on the multiset of items (glyph names pairwise distinct) -/
+theorem sortedLayerOf_perm {lt : Str → Str → Bool} (h : StrictTotal lt) {l₁ l₂ : List IView} (hp : l₁.Perm l₂)
+    (nd : ((l₁.filterMap IView.glyph?).map View.name).Nodup) : sortedLayerOf lt l₁ = sortedLayerOf lt l₂ := by
+  unfold sortedLayerOf
+  rw [all_perm _ hp]
+  split
+  · congr 1
+    apply foldl_perm _ (hp.filterMap _)
+    intro x hx y hy z
+    rcases eq_or_ne_of_nodup_map View.name nd hx hy with rfl | hne
+    · rfl
+    · exact insertSorted_comm h y x (Ne.symm hne) z
+  · rfl
+
 /-! ## tasks -/
 
 /-- the names handed out so far, the request waiting for the write lock and the requests not yet
